@@ -99,6 +99,8 @@ static sexp make_script_env(sexp ctx) {
   return env;
 }
 
+static int letters = 0;                      /* threads mode: letters written to stdout per thread and round */
+static __thread int my_letter = -1;
 static char *run_workload(int w, size_t heap) {
   sexp ctx = sexp_make_eval_context(NULL, NULL, NULL, heap, 0);
   sexp env;
@@ -106,6 +108,14 @@ static char *run_workload(int w, size_t heap) {
   if (!ctx) die("no context");
   env = make_script_env(ctx);
   out = eval_forms(ctx, env, workloads[w % NW]);
+  if (letters > 0 && my_letter >= 0) {
+    /* free-running mode: every context also writes its own letter to the process-wide stdout through its standard port; the
+       caller counts the letters (independent contexts share the C stream, whose locking is the library's business) */
+    char buf[300];
+    snprintf(buf, sizeof(buf), "(import (scheme base) (scheme write)) (let ((c (integer->char %d))) (do ((i 0 (+ i 1))) ((= i %d)) (write-char c)) (newline) (flush-output-port))",
+             97 + my_letter, letters);
+    free(eval_forms(ctx, env, buf));
+  }
   sexp_destroy_context(ctx);
   return out;
 }
@@ -209,6 +219,7 @@ static int rounds = 1;
 
 static void *thread_body(void *arg) {
   int id = (int)(long)arg, r;
+  my_letter = id;
   thread_begin(id);
   for (r = 0; r < rounds; r++) {
     char *out = run_workload(id + r, (id % 2) ? 256 * 1024 : 0);
@@ -228,7 +239,8 @@ static const char *PROBE =
   "              (guard (e (#t 'no-table)) (eval '(hash-table-ref/default tbl 'k 'none) (interaction-environment)))"
   "              (eq? (string->symbol \"fresh-sym\") 'fresh-sym)"
   "              (+ (expt 2 70) 1) (string-append \"a\" \"b\") (vector-length (make-vector 10 0))"
-  "              (guard (e (#t 'no-feature)) (if (memq 'my-feature (features)) 'feature 'no-feature))) p)"
+  "              (guard (e (#t 'no-feature)) (if (memq 'my-feature (features)) 'feature 'no-feature))"
+  "              (guard (e (#t 'no-port)) (eval '(let ((d (duplicate-file-descriptor kept-fd))) (if d (begin (close-file-descriptor d) 'descriptor-open) 'descriptor-closed)) (interaction-environment)))) p)"
   " (get-output-string p))";
 
 static const char *iso_op(char c, int who) {
@@ -241,6 +253,10 @@ static const char *iso_op(char c, int who) {
   case 'g': return "(let loop ((i 0) (a '())) (if (< i 30000) (loop (+ i 1) (cons (make-vector 20 i) (if (> i 29000) a '()))) (length a)))";
   case 's': return "(define fs (map (lambda (i) (string->symbol (string-append \"fresh-sym\" (number->string i)))) '(1 2 3 4 5 6 7 8)))";
   case 'm': return "(set! shared-name 'mutated)";
+  /* descriptors are process-wide: f opens a descriptor-backed port, reads and closes it explicitly (the descriptor object lives on
+     until a collection); k opens a file and keeps it open - the probe reads from it */
+  case 'f': return "(import (scheme base) (chibi filesystem) (chibi io)) (define tmp-port (open-input-file-descriptor (open \"/proc/self/status\" open/read))) (read-char tmp-port) (close-input-port tmp-port) (set! tmp-port #f)";
+  case 'k': return "(import (scheme base) (chibi filesystem) (chibi io)) (define kept-fd (open \"/proc/self/status\" open/read)) (define kept-port (open-input-file-descriptor kept-fd))";
   }
   return "#f";
 }
@@ -260,6 +276,7 @@ int main(int argc, char **argv) {
     if (nthreads > 32) nthreads = 32;
     if (!strcmp(argv[1], "threads")) {
       rounds = argc > 3 ? atoi(argv[3]) : 1;
+      letters = argc > 4 ? atoi(argv[4]) : 0;
     } else {
       const char *s = argc > 3 ? argv[3] : "-";
       coop = 1; current = 0;
@@ -295,7 +312,9 @@ int main(int argc, char **argv) {
       if (c == 'x') {
         if (ctx[w]) { sexp_destroy_context(ctx[w]); ctx[w] = NULL; dead[w] = 1; }
       } else if (ctx[w]) {
-        free(eval_forms(ctx[w], env[w], iso_op(c, w)));
+        char *r = eval_forms(ctx[w], env[w], iso_op(c, w));
+        if (!strncmp(r, "EXCEPTION", 9) && getenv("CTXMC_DEBUG")) fprintf(stderr, "op %c in context %d: %s\n", c, w, r);
+        free(r);
       }
       for (j = 0; j < 3; j++)
         if (ctx[j]) { char *p = eval_forms(ctx[j], env[j], PROBE); printf("P %d %d %s\n", j, pos[j], p); free(p); }
